@@ -181,6 +181,46 @@ theorem name_keeps_unicode (mac e : Encoding)
         ∧ r2.luni = some n ∧ getName r2 = n :=
   name_roundtrip mac e hd hq n (scalar_pyStr n hs) (scalar_noPair n hs) hlen r0
 
+/-- The same for EVERY record that carries the unicode block, whatever put it there and whatever its
+legacy field holds: the save-time encoding never decides whether the save succeeds. This is what the
+creation paths of the API rely on (`Group.new`, `PixelLayer.frompil`), for any save `encoding`. -/
+theorem name_keeps_unicode_any_record (e : Encoding)
+    (hd : ∀ s b, e.encode s = some b → ∃ s', e.decode b = some s')
+    (hq : ∃ b, e.encode [0x3F] = some b ∧ b.length ≤ 255)
+    (r1 : NameRec) (n : Str) (hl : r1.luni = some n) (hs : ∀ c ∈ n, Scalar c) (hlen : n.length < 2147483648) :
+    ∃ lb ub, writeName e r1 = .ok (lb, some ub) ∧
+      ∀ pre post, ∃ r2, readName e (pre ++ lb ++ post) pre.length (some ub) = .ok (r2, pre.length + lb.length)
+        ∧ r2.luni = some n ∧ getName r2 = n :=
+  nameRec_roundtrip e hd hq r1 n hl (scalar_pyStr n hs) (scalar_noPair n hs) hlen
+
+/-- `Group.new(n)`; `save(encoding=e)`; `open(encoding=e)` -/
+theorem group_new_keeps_unicode (e : Encoding)
+    (hd : ∀ s b, e.encode s = some b → ∃ s', e.decode b = some s')
+    (hq : ∃ b, e.encode [0x3F] = some b ∧ b.length ≤ 255)
+    (n : Str) (hs : ∀ c ∈ n, Scalar c) (hlen : n.length < 2147483648) :
+    ∃ lb ub, writeName e (newGroupName n) = .ok (lb, some ub) ∧
+      ∀ pre post, ∃ r2, readName e (pre ++ lb ++ post) pre.length (some ub) = .ok (r2, pre.length + lb.length)
+        ∧ getName r2 = n := by
+  obtain ⟨lb, ub, hw, hr⟩ := name_keeps_unicode_any_record e hd hq (newGroupName n) n rfl hs hlen
+  exact ⟨lb, ub, hw, fun pre post => by obtain ⟨r2, h1, _, h3⟩ := hr pre post; exact ⟨r2, h1, h3⟩⟩
+
+/-- `PixelLayer.frompil(…, n)`; `save(encoding=e)`; `open(encoding=e)` -/
+theorem frompil_keeps_unicode (mac e : Encoding)
+    (hd : ∀ s b, e.encode s = some b → ∃ s', e.decode b = some s')
+    (hq : ∃ b, e.encode [0x3F] = some b ∧ b.length ≤ 255)
+    (n : Str) (hs : ∀ c ∈ n, Scalar c) (hlen : n.length < 256) :
+    ∃ r1 lb ub, frompilName mac n = .ok r1 ∧ writeName e r1 = .ok (lb, some ub) ∧
+      ∀ pre post, ∃ r2, readName e (pre ++ lb ++ post) pre.length (some ub) = .ok (r2, pre.length + lb.length)
+        ∧ r2.luni = some n ∧ getName r2 = n :=
+  name_keeps_unicode mac e hd hq n hs hlen _
+
+/-- `'Café'` given to `Group.new` and saved as ASCII: MacRoman could express it, ASCII cannot — `'?'`
+in the legacy field, the name in the block. -/
+example : writeName ascii (newGroupName [0x43, 0x61, 0x66, 0xE9])
+    = .ok ([1, 0x3F, 0, 0], some [0, 0, 0, 4, 0, 0x43, 0, 0x61, 0, 0x66, 0, 0xE9]) := by decide +kernel
+example : (frompilName (charmap Generated.Strings.macRomanTable) [0xE9] >>= writeName ascii)
+    = .ok ([1, 0x3F, 0, 0], some [0, 0, 0, 1, 0, 0xE9, 0, 0]) := by decide +kernel
+
 /-- Lawful codecs satisfy the decodability hypothesis of `name_keeps_unicode`. -/
 theorem lawful_decodes (e : Encoding) (h : e.Lawful) : ∀ s b, e.encode s = some b → ∃ s', e.decode b = some s' :=
   fun s b hb => ⟨s, h s b hb⟩
@@ -197,7 +237,47 @@ theorem name_without_block_rejected (e : Encoding) (r : NameRec) (h : r.luni = n
     (hu : e.encode r.legacy = none) : writeName e r = .error .unicodeError := by
   rw [writeName_no_block e r h, (pascal_rejects e r.legacy 4).1 hu]
 
+/-- … which is why a creation path may not skip the block for names that MacRoman happens to express:
+the same `'Café'` without the block cannot be saved as ASCII at all. -/
+theorem name_entry_without_block_fails :
+    writeName ascii ⟨[0x43, 0x61, 0x66, 0xE9], none⟩ = .error .unicodeError ∧
+    (charmap Generated.Strings.macRomanTable).encode [0x43, 0x61, 0x66, 0xE9] ≠ none := by
+  decide +kernel
+
 /-! ### ties to the source (regenerated on every run) -/
+
+/-- Every API function that stores a caller-supplied layer name (`LayerRecord(name=p)` or `x.name = p`)
+also stores the unicode block for it UNCONDITIONALLY — a direct statement of its body, through
+`set_data(Tag.UNICODE_LAYER_NAME, p)` or through the `name` setter: the hypothesis `r1.luni = some n`
+of `name_keeps_unicode_any_record` holds on every creation path. -/
+theorem name_entry_points_tied :
+    Generated.Strings.nameEntryPoints =
+      [("Layer.name", "value", "set_data", "always"), ("Group.new", "name", "set_data", "always"),
+       ("PixelLayer.frompil", "layer_name", "setter", "always")] := by
+  decide
+
+/-- The pascal reader decodes with the very codec the pascal writer encodes with — the `encoding`
+parameter, passed straight to `.decode` / `.encode` and never rebound (the one `e` of
+`pascal_roundtrip`); the unicode pair likewise (`utf-16-be`, `surrogatepass`). -/
+theorem primitive_codecs_tied :
+    Generated.Strings.primitiveCodecs =
+      [("read_pascal_string", "decode", ["encoding"], []), ("write_pascal_string", "encode", ["encoding"], []),
+       ("read_unicode_string", "decode", ["'utf-16-be'", "'surrogatepass'"], []),
+       ("write_unicode_string", "encode", ["'utf-16-be'", "'surrogatepass'"], [])] := by
+  decide
+
+/-- Call site by call site: the reader of every element class names the codecs its writer names, in
+the same order. -/
+theorem reader_codec_is_writer_codec :
+    Generated.Strings.codecPairs.all (fun p => decide (p.2.1 = p.2.2) && !p.2.1.isEmpty) = true := by
+  decide +kernel
+
+/-- No call site post-processes the string it read (strips, slices, normalises): the value is bound
+once, or handed straight to a constructor. -/
+theorem reader_values_unprocessed :
+    Generated.Strings.readerUses.all (fun u => decide (u.2.2.2 ∈ ["assign", "argument", "return"])) = true := by
+  decide +kernel
+
 
 /-- Every call site of the four primitives passes a literal padding 1, 2 or 4 (0 = passed
 through from a caller that is itself in this table or `TaggedBlock`, which passes 1 or 4) and
